@@ -227,3 +227,52 @@ def nested_multi(x, top=True):
             return True
         return any(nested_multi(i, False) for i in x["items"])
     return False
+
+
+# ---- C03: dict containers with a class and an observable key order; frames with a chosen physical column order ----
+# (added for C03; nothing above is changed.  build_c / proj_c are build / proj for trees whose dict nodes are
+#  {"k": "d", "cls": "dict" | "odict" | "Dict" | "dictattr", "keys": [in insertion order], "items": [..]}.)
+def _dict_classes():
+    from collections import OrderedDict
+    import pyg_base as pg
+    return {"dict": dict, "odict": OrderedDict, "Dict": pg.Dict, "dictattr": pg.dictattr}
+
+
+def build_c(x, reg, rng=None, int_series=False, colorder=0):
+    """as build(); dicts are built key by key in the listed order into a container of the listed class; without an rng
+    the physical column order of a frame is the listed one (colorder even) or its reverse (colorder odd)"""
+    k = x["k"]
+    if k == "d":
+        d = _dict_classes()[x.get("cls", "dict")]()
+        for key, i in zip(x["keys"], x["items"]):
+            d[key] = build_c(i, reg, rng, int_series, colorder)
+        return d
+    if k == "l":
+        return [build_c(i, reg, rng, int_series, colorder) for i in x["items"]]
+    if k == "t":
+        return tuple(build_c(i, reg, rng, int_series, colorder) for i in x["items"])
+    if k == "f" and rng is None and colorder % 2 == 1 and len(x["c"]) > 1:
+        cols = list(zip(x["c"], x["v"]))[::-1]
+        return pd.DataFrame({c: np.array([uncell(v) for v in col], dtype=float) for c, col in cols}, index=index_of(x["t"]))
+    return build(x, reg, rng, int_series=int_series)
+
+
+def dict_class(o):
+    """the name of the class of a dict container (exact type, not isinstance: a subclass is another class)"""
+    for name, cls in _dict_classes().items():
+        if type(o) is cls:
+            return name
+    return 'other:%s' % type(o).__name__
+
+
+def proj_c(o, reg=None):
+    """as proj(); a dict is projected with its class and its keys in the order of iteration"""
+    if reg is not None and reg.ident(o) is not None:
+        return proj(o, reg)
+    if isinstance(o, dict):
+        return {"k": "d", "cls": dict_class(o), "keys": [str(key) for key in o.keys()], "items": [proj_c(i, reg) for i in o.values()]}
+    if isinstance(o, list):
+        return {"k": "l", "items": [proj_c(i, reg) for i in o]}
+    if isinstance(o, tuple):
+        return {"k": "t", "items": [proj_c(i, reg) for i in o]}
+    return proj(o, reg)
